@@ -273,6 +273,11 @@ def no_shared_state(ctx, R, f, what, allow_self=False):
             recv = n.func.value
         for t in tg + ([recv] if recv is not None else []):
             if isinstance(t, ast.Name):
+                # a mutating call on a bare name: local containers are fine, a module-level one is shared state
+                if t is recv and t.id not in loc and t.id not in ("np", "numpy", "math", "warnings", "logging") and prog.modules.get(f.module.name) is not None \
+                        and t.id in getattr(f.module, "assigns", {}):
+                    ctx.bad(R, f, n, "%s updates %s, a module-level object shared by every instance and call: values cached there for one configuration are "
+                            "served to another" % (what, t.id), "%s keeps no state between calls" % what, robust=True)
                 continue
             b = astq.base_name(t)
             if b is None:
